@@ -1,7 +1,7 @@
 """C07 - event extraction captures the quantized music it is given, step for step (DESIGN.md §4 C07)."""
 import ast
 
-from sa import ordr, apicheck, nf, cov, roles, astutil as U
+from sa import ordr, apicheck, nf, cov, roles, fold, astutil as U
 from sa.roles import Canon
 from sa.loader import norm_text, dotted
 from sa.selftest import Mutant
@@ -103,6 +103,50 @@ def zero_is_a_value(ctx):
   parameters_reach(ctx, scope)
 
 
+def pitch_zero_is_a_note(ctx, rule='MELODY/pitch-zero-is-a-note'):
+  """Melody events are pitches 0..127 or the codes -1 / -2.  Every test in melodies_lib that separates "a pitch" from "a code" by
+  comparing an event with MIN_MIDI_PITCH / MAX_MIDI_PITCH is evaluated for the event values 0 and 127 (pitches: the test must hold
+  as it does for 60) and -1, -2 (codes: it must come out the other way)."""
+  from sa import scenario, pathval
+  mi = ctx.P.module('melodies_lib')
+  fd = fold.Folder(ctx.P, ctx.S)
+  consts = {}
+  for nm in ('MIN_MIDI_PITCH', 'MAX_MIDI_PITCH', 'MELODY_NOTE_OFF', 'MELODY_NO_EVENT', 'NUM_SPECIAL_MELODY_EVENTS'):
+    try:
+      k = fd.module_const(mi, nm)
+      if isinstance(k, int):
+        consts[nm] = ast.Constant(value=k)
+    except Exception:      # pylint: disable=broad-except
+      pass
+  n = 0
+  for q, fi in sorted(mi.all_functions.items()):
+    if '<locals>' in q:
+      continue
+    for c in ast.walk(fi.node):
+      if not (isinstance(c, ast.Compare) and any(isinstance(x, ast.Name) and x.id in ('MIN_MIDI_PITCH', 'MAX_MIDI_PITCH') for x in ast.walk(c))):
+        continue
+      subj = sorted(set(norm_text(x) for x in [c.left] + c.comparators if not isinstance(x, ast.Constant) and norm_text(x) not in consts and
+                        (norm_text(x).startswith('self._events[') or isinstance(x, ast.Name))))
+      if len(subj) != 1:
+        continue
+      def at(v):
+        return scenario.fold_numeric(pathval.subst(c, dict(consts, **{subj[0]: ast.Constant(value=v)})), {})
+      ref = at(60)
+      vals = dict((v, at(v)) for v in (0, 127, -1, -2))
+      if ref is None or any(x is None for x in vals.values()):
+        continue
+      n += 1
+      wrong = [v for v in (0, 127) if bool(vals[v]) != bool(ref)] + [v for v in (-1, -2) if bool(vals[v]) == bool(ref)]
+      # a comparison that does not separate pitches from codes at all (a plain range check against a parameter, say) is not judged
+      if bool(vals[-1]) == bool(ref) and bool(vals[-2]) == bool(ref) and bool(vals[0]) == bool(ref) and bool(vals[127]) == bool(ref):
+        continue
+      ctx.ob(rule, fi, c, not wrong, '`%s` treats 0 and 127 like 60 and -1, -2 the other way' % norm_text(c)[:50] if not wrong else
+             '`%s` in %s treats the event value %s %s: pitch %s is an ordinary note of a melody (and -1 / -2 are the only codes)' % (
+                 norm_text(c)[:60], fi.qualname, wrong[0], 'like a code, not like a pitch' if wrong[0] >= 0 else 'like a pitch', wrong[0]), construct='%s: %s separates pitches from codes' % (fi.qualname, norm_text(c)[:40]),
+             definite=True)
+  ctx.count('melody_pitch_tests', n)
+
+
 def pad_to_bar(ctx, rule='PAD/next-bar-line'):
   """"pad_end: the end is padded so that the length is a multiple of a bar": the closing statements of Melody / DrumTrack
   extraction, evaluated for lengths 0, 1, 15, 16, 17, 32, 33 at 16 steps per bar, must ask for 0, 16, 16, 16, 32, 32, 48 steps (the
@@ -181,6 +225,7 @@ def parameters_reach(ctx, scope=None):
 def run(ctx):
   zero_is_a_value(ctx)
   pad_to_bar(ctx)
+  pitch_zero_is_a_note(ctx)
   rendered_back(ctx)
   order(ctx)
   roll_gap_index(ctx)
